@@ -226,6 +226,8 @@ def run(ctx):
          'once an id was taken from the client\'s cancellation queue, the table removal for it happens in the same activation: an abandoned call\'s entry and timer cannot be left behind by an early return',
          [poll_.loc(poll_.d)], 'exits with a consumed but unprocessed cancellation: %s' % lost)
 
+    from .server_common import guard_always_disarmed
+    guard_always_disarmed(ctx, 'C11.guard', S)
 
 def _locals_of(P, g, agg_stmt, field):
     """locals that (through temporaries) feed the given field of an aggregate statement"""
@@ -236,5 +238,3 @@ def _locals_of(P, g, agg_stmt, field):
     op = rv['ops'][rv['fields'].index(field)]
     l = base_local(g, P, op)
     return {l} if l is not None else set()
-    from .server_common import guard_always_disarmed
-    guard_always_disarmed(ctx, 'C11.guard', S)
